@@ -13,8 +13,9 @@
                dropped here, provided none of their tokens is a keyword the loop would react to
                (otherwise EOutside: the reader would resynchronise in the middle of a line).
                At end of input the peeks of parse_model_ports / parse_name / parse_instance_info
-               raise StopIteration (modes MHdr, MRows, MInfo); in MPlain the model is closed as
-               if by .end.
+               raise StopIteration (modes MHdr, MRows, MInfo: statement SStop, so that the
+               exception comes after the effects and exceptions of the statements before it); in
+               MPlain the model is closed as if by .end.
    [exec]      the effect of every handler on the netlist under construction.
    [finish]    set_subcircuit_names_by_convention, insert_comments_into_netlist_data,
                add_blackbox_definitions.
@@ -38,7 +39,8 @@ Inductive stmt :=
 | SAttr (k v : str)
 | SConn (a b : str)
 | SBlackbox
-| SEnd.
+| SEnd
+| SStop.          (* end of input where parse_model_ports / parse_name / parse_instance_info peek: StopIteration *)
 
 Inductive mode := MTop | MHdr (ph : nat) | MPlain | MRows | MInfo.
 
@@ -141,7 +143,7 @@ Fixpoint classify_from (md : mode) (d : doc) : result (list stmt) :=
     match md with
     | MTop => Ok []
     | MPlain => Ok [SEnd]
-    | _ => Error EStop
+    | _ => Ok [SStop]
     end
   | l :: d' =>
     do '(ss, md') <- cl_line md l;
@@ -395,7 +397,9 @@ Definition exec (s : st) (x : stmt) : result st :=
     let ref := k_latch_def in
     let ms0 := ensure_model ref (st_models s) in
     let ms1 := match m_ports (get_model ref ms0) with
-               | [] => fold_left (fun ms kv => add_port ref (latch_port (fst kv)) ms) info ms0
+               | [] => fold_left (fun ms kv => ensure_port ref (latch_port (fst kv)) ms) info ms0
+                       (* add_port for every key of the dict port_info: the keys are distinct and the
+                          definition has no port yet, so "add if absent" is the same *)
                | _ => ms0
                end in
     let idx := length (m_insts (get_model (s_cur s) ms1)) in
@@ -434,6 +438,7 @@ Definition exec (s : st) (x : stmt) : result st :=
              (if s_isbb s then b_prim n ++ [s_cur s] else b_prim n)))
     | _ => Error EAssert                          (* add_definition: already in a library *)
     end
+  | SStop => Error EStop
   end.
 
 Fixpoint exec_all (s : st) (l : list stmt) : result st :=
